@@ -26,6 +26,16 @@ class Ctx:
     def n(self, q, t):
         return q if self.tier == "quick" else t
 
+    # ---- the search ranges of the Min* wrappers as the model has them (mirrors the code) --------
+    def model_hi(self, cls, m):
+        """exclusive upper end of `range(lb, hi)` in the wrapper's solve()"""
+        from . import searchmodel
+        return searchmodel.hi(cls, m)
+
+    def model_kind(self, cls):
+        from . import searchmodel
+        return searchmodel.kind(cls)
+
     def disagree(self, suite, inp, impl, model, note=""):
         self.rep.suite(suite)["disagreements"] += 1
         self.rep.cov["disagreements_checked"] += 1
